@@ -1209,8 +1209,13 @@ class InBodyPhase(Phase):
     def startTagTextarea(self, token):
         self.tree.insertElement(token)
         self.parser.tokenizer.state = self.parser.tokenizer.rcdataState
-        self.processSpaceCharacters = self.processSpaceCharactersDropNewline
         self.parser.framesetOK = False
+        # The content is handled by the "text" insertion mode (no active
+        # formatting elements are reconstructed inside a textarea), which
+        # also ignores a newline directly after the start tag
+        self.parser.originalPhase = self.parser.phase
+        self.parser.phase = self.parser.phases["text"]
+        self.parser.phase.dropNewline = True
 
     def startTagIFrame(self, token):
         self.parser.framesetOK = False
@@ -1652,12 +1657,28 @@ class InBodyPhase(Phase):
 
 
 class TextPhase(Phase):
-    __slots__ = tuple()
+    __slots__ = ("dropNewline",)
+
+    def __init__(self, *args, **kwargs):
+        super(TextPhase, self).__init__(*args, **kwargs)
+        # set by a <textarea> start tag: the next token is ignored if it is
+        # a newline
+        self.dropNewline = False
+
+    def processSpaceCharacters(self, token):
+        self.processCharacters(token)
 
     def processCharacters(self, token):
-        self.tree.insertText(token["data"])
+        data = token["data"]
+        if self.dropNewline:
+            self.dropNewline = False
+            if data.startswith("\n"):
+                data = data[1:]
+        if data:
+            self.tree.insertText(data)
 
     def processEOF(self):
+        self.dropNewline = False
         self.parser.parseError("expected-named-closing-tag-but-got-eof",
                                {"name": self.tree.openElements[-1].name})
         self.tree.openElements.pop()
@@ -1675,6 +1696,7 @@ class TextPhase(Phase):
         # document.write works
 
     def endTagOther(self, token):
+        self.dropNewline = False
         self.tree.openElements.pop()
         self.parser.phase = self.parser.originalPhase
 
